@@ -57,7 +57,10 @@ def check(env, rep, tier):
                "the reserve of %d bytes is below the worst case the handler adds: 2 x (header byte + extended delta byte + %d value bytes) + payload marker = %d" % (R, w, need),
                sample={"rule": "C10.3", "reserve": R, "needed": need, "value_bytes": w})
         check_rounding(prog, rep)
-        check_sites(prog, rep, R)
+        forms = check_sites(prog, rep, R) or []
+        # what the negotiation's first size argument means is read off its call sites: the measured size of the whole
+        # message ("A": bound = budget - ((size + R) - payload)) or of the message without its payload ("B": budget - (size + R))
+        form = "B" if forms and all(f == "B" for f in forms) else "A"
         # ---- C10.1 / C10.2 / C10.4 by symbolic evaluation of the negotiation function
         for mode in ("client", "none"):
             I = new_interp(prog)
@@ -79,16 +82,17 @@ def check(env, rep, tier):
             else:
                 args[oi[0]] = EnumV(ov.path, {0: StructV([])}, ov.ty)
             msg, total, budget = (args[i] for i in ui)
-            st.add_fact(msg.aff - total.aff)   # the message contains its payload
+            if form == "A":
+                st.add_fact(msg.aff - total.aff)   # the message contains its payload
             st.add_fact(Aff.const((1 << 63) - 1) - msg.aff)   # it is the size of an encoded message in memory
             ev = {"sub": [], "min": [], "new": []}
 
             def hook(I_, s, call, cbody):
-                if call.ctx.depth != 0:
-                    return
+                if not call.ctx.body["path"].startswith("block_handler::"):
+                    return      # (the decision may sit in a private helper of the negotiation)
                 if call.path.endswith("::checked_sub"):
                     ev["sub"].append((call.args, s.copy()))
-                elif call.path == "core::cmp::min":
+                elif call.path in ("core::cmp::min", "core::cmp::Ord::min"):
                     ev["min"].append((call.args, s.copy()))
                     s.ghost["min_args"] = tuple(call.args)
                 elif call.path == BV + "::new":
@@ -96,7 +100,7 @@ def check(env, rep, tier):
             I.call_hooks.append(hook)
             I, res = run(prog, neg, args=args, st=st, I=I, gargs=gargs)
             report_obligations(rep, "C10.1", I)
-            bound = budget.aff - (msg.aff + R - total.aff)
+            bound = budget.aff - (msg.aff + R - total.aff) if form == "A" else budget.aff - (msg.aff + R)
             # the bound must reach the size decision: as an operand of min (client) or as the size itself (no client)
             oks = False
             for a, s, minargs in ev["new"]:
@@ -104,7 +108,7 @@ def check(env, rep, tier):
                 if any(isinstance(m, IntV) and m.aff == bound for m in cands):
                     oks = True
             rep.ob("C10.1", "bound|%s" % mode, oks,
-                   "the block size bound used for the size decision is not budget - ((message size + %d) - payload size)" % R, site,
+                   "the block size bound used for the size decision is not budget - %s" % ("((message size + %d) - payload size)" % R if form == "A" else "(non-payload size + %d)" % R), site,
                    sample={"rule": "C10.1", "mode": mode, "checked_sub_calls": len(ev["sub"])})
             # underflow -> Err
             und = True
@@ -220,6 +224,15 @@ def check_sites(prog, rep, R):
     if len(ui) != 3:
         return
     new_b = find_body(prog, BV + "::new")
+    forms = []
+
+    def size_form(msg, encs, p0):
+        if isinstance(msg, IntV) and isinstance(p0, VecV):
+            if any(msg.aff == Aff.sym(e) + p0.len for e in encs):
+                return "A"
+            if any(msg.aff == Aff.sym(e) for e in encs):
+                return "B"
+        return None
 
     i_num, i_more, i_szx = (blockutil.idx(prog, BV, n) for n in ("num", "more", "size_exponent"))
     nargs = [i for i in range(new_b["arg_count"]) if prog.types[new_b["locals"][i + 1]["ty"]]["s"] == "usize"] if new_b is not None else []
@@ -308,7 +321,9 @@ def check_sites(prog, rep, R):
             encs = list(enc_of(I, s, tr.resp_msg))
             cfgv = I.read(s, cfg_place) if cfg_place is not None else None
             good = isinstance(pay, IntV) and isinstance(p0, VecV) and pay.aff == p0.len
-            good = good and isinstance(msg, IntV) and any(msg.aff == Aff.sym(e) + p0.len for e in encs)
+            fm = size_form(msg, encs, p0)
+            forms.append(fm)
+            good = good and fm is not None
             good = good and isinstance(bud, IntV) and isinstance(cfgv, IntV) and bud.aff == cfgv.aff
             ok = ok and good
         rep.ob("C10.5", "site|response", ok,
@@ -340,26 +355,17 @@ def check_sites(prog, rep, R):
                "unfragmented) + measured non-payload size + %d-byte reserve being shown <= the budget" % (bad, n, R), site,
                sample={"rule": "C10.6", "site": "response", "paths": n, "not_shown": bad})
     # ------------------------------------------------ Block1: the upload handler
-    cands = blockutil.fns_calling(prog, "block_handler::extending_splice")
-    if len(cands) != 1:
-        return
-    body = cands[0]
-    req_arg = None
-    budget_i = None
-    for i in range(body["arg_count"]):
-        ts = prog.types[body["locals"][i + 1]["ty"]]["s"]
-        if "request::CoapRequest" in ts:
-            req_arg = i
-        if ts == "usize":
-            budget_i = i
-    if req_arg is None or budget_i is None:
-        rep.missing("C10.5", "request / budget arguments of %s" % body["path"])
-        return
+    anchor = blockutil.upload_anchor(prog)
+    if anchor is None:
+        rep.missing("C10.5", "the handler function that splices upload blocks into the per-key buffer (or a caller of it holding the request)")
+        return forms
+    body, req_arg, budget_i = anchor
     tr = Trace(prog, None, body=body, req_arg=req_arg, setup=setup_common)
     I = tr.I
     site = {"file": body["span"]["f"], "line": body["span"]["l"], "fn": body["path"]}
     req_msg = tr.req_payload_place.parent() if hasattr(tr.req_payload_place, "parent") else Place(tr.req_payload_place.key, tr.req_payload_place.proj[:-1])
-    budget = tr.args[budget_i]
+    cfg_place1 = blockutil.config_budget_place(prog, tr) if budget_i is None else None
+    budget = tr.args[budget_i] if budget_i is not None else (I.read(tr.res[0][0], cfg_place1) if tr.res and cfg_place1 is not None else None)
     negs_ev = [e for e in tr.events if e[0] == "negotiate"]
     ok = bool(negs_ev)
     for _, a, s, sitec in negs_ev:
@@ -367,7 +373,9 @@ def check_sites(prog, rep, R):
         p0 = tr.req_payload0
         encs = list(enc_of(I, s, req_msg))
         good = isinstance(pay, IntV) and isinstance(p0, VecV) and pay.aff == p0.len
-        good = good and isinstance(msg, IntV) and any(msg.aff == Aff.sym(e) + p0.len for e in encs)
+        fm = size_form(msg, encs, p0)
+        forms.append(fm)
+        good = good and fm is not None
         good = good and isinstance(bud, IntV) and isinstance(budget, IntV) and bud.aff == budget.aff
         ok = ok and good
     rep.ob("C10.5", "site|request", ok,
@@ -410,3 +418,6 @@ def check_sites(prog, rep, R):
            "the upload handler acknowledges a block size on %d of %d paths without size + measured non-payload size of this request + "
            "%d-byte reserve being shown <= the budget (the client's next block of that size need not fit)" % (bad, n, R), site,
            sample={"rule": "C10.6", "site": "request", "paths": n, "not_shown": bad})
+    rep.ob("C10.5", "site|same-meaning", len(set(forms)) <= 1,
+           "the two call sites hand the negotiation sizes of different meaning (whole message / message without payload): %s" % forms)
+    return forms
